@@ -21,6 +21,7 @@ float64 are not a violation).
 
 from __future__ import annotations
 
+import itertools
 import json
 import warnings
 
@@ -60,7 +61,7 @@ ASSUMPTIONS = [
     "cross-set models are run with use_pca=False (thorough: also n_pca_modes='all'); PCA truncation is C09/C16's subject",
     "fractions/correlations an accessor refuses on the source node are compared as 'refused on both nodes' (differential oracle, DESIGN 4.2)",
 ]
-TALLY_KEYS = ("model", "kind", "container", "depth", "latname", "wpres", "entry", "store")
+TALLY_KEYS = ("model", "kind", "container", "depth", "latname", "wpres", "entry", "store", "wstore")
 TRUSTED = ["statsmodels import shim (/verif/shims) so that xeofs.cross constructors can be called; correction=None never reaches it"]
 MAX_REFUSED_FRACTION = 0.02
 
@@ -91,6 +92,8 @@ FULL = dict(
 )
 RED = dict(shift=[1e3, -1e6], affine=[("ramp", 10.0)], glob=[-3.0, 1e6])
 RED_X = dict(shift=[1e3], affine=[("ramp", 10.0)], glob=[-3.0])
+# tiny / huge physical units (mol/mol, kg m-2 s-1, Pa): global factors far below float32 eps and far above 1/eps
+UNITS = dict(shift=[], affine=[], glob=[1e-10, 1e-8, 1e10])
 # default PCA pre-reduction of cross-set models (float n_pca_modes = variance fraction): rescalings only, over many orders of magnitude
 PCA_P = dict(shift=[], affine=[("lo", 10.0), ("ramp", 10.0)], glob=[1e-6, 1e-5, 1e5])
 PCA_P_T = dict(shift=[], affine=[("lo", 10.0), ("ramp", 10.0), ("hi", -10.0), ("alt", 1e3)], glob=[1e-6, 1e-5, 1e5, -3.0])
@@ -293,6 +296,9 @@ def cases(tier, seed):
         cross("CPCCA", [0.5, 0.5], (9, 4, 3), [FF], ["DA"], [x_all], [x_all], P1=RED)
         cross("CPCCA", [0.5, 0.5], (9, 4, 3), [TT, FT, TF], ["DA"], x_mixed, [], P1=RED_X, both=RED_X)
         cross("CPCCA", [0.0, 1.0], (9, 4, 3), [FF, TF], ["DA"], [x_all], [], P1=RED_X)
+        cross("MCA", [1.0, 1.0], (9, 4, 3), [FF], ["DA"], [x_none], [], P1=UNITS, both=UNITS)
+        cross("CPCCA", [0.0, 1.0], (9, 4, 3), [FF], ["DA"], [x_none], [], P1=UNITS)
+        cross("CPCCA", [1.0, 0.5], (9, 4, 3), [FF], ["DA"], [x_none], [], P1=UNITS)
     else:
         for shape in ((9, 4, 3), (12, 6, 4)):
             cross("MCA", [1.0, 1.0], shape, [FF, TT], ["DA", "DS", "LIST"], S4, [x_none, x_all])
@@ -395,6 +401,19 @@ def cases(tier, seed):
             extra.append(dict(c, store=store))
     out += extra
 
+    # ---------------------------------------------------------------- storage type of the user weights
+    # integer-valued weights (band weights 1, 2, 3; counts) held in integer storage are the same weights as their float copy
+    extra = []
+    for c in out:
+        kinds = [e["kind"] for e in c["path"]]
+        if "fold" not in kinds or c.get("wpres", "same") != "same" or c.get("store") or c["latname"] != "lat" or c.get("pca", "off") != "off":
+            continue
+        if not thorough and (c["depth"] > 1 or c["model"] not in ("EOF", "MCA", "CPCCA") or c["spec"] != "geometric"):
+            continue
+        for ws in (("int64",) if not thorough else ("int64", "int32", "uint8")):
+            extra.append(dict(c, wstore=ws))
+    out += extra
+
     for c in out:
         if "patterns" in c:
             c["patterns"] = thorough  # homogeneous/heterogeneous correlation patterns are compared in the thorough tier only (0.1 s per fit)
@@ -407,7 +426,109 @@ def cases(tier, seed):
         if key not in seen:
             seen.add(key)
             uniq.append(c)
-    return uniq
+    return uniq + _pre_cases(tier)
+
+
+# ----------------------------------------------------------------------------- the options against the pre-processed data
+# For the model classes the scaling-law graph above does not carry (inner decompositions of their own: ExtendedEOF with and
+# without PCA pre-step, HilbertEOF, OPA, POP, penalised SparsePCA, EOFRotator): the fit with (center, standardize, use_coslat,
+# weights) on X must equal the fit with every option off on the numpy-preprocessed matrix (X - mean)/std * sqrt(cos lat) * w.
+PRE_MODELS = ["ExtendedEOF", "ExtendedEOF+pca", "HilbertEOF", "HilbertEOF+exp", "OPA", "POP", "SparsePCA+pen", "EOFRotator", "EOF"]
+
+
+def _pre_cases(tier):
+    out = []
+    for model in PRE_MODELS:
+        for (c, s, cl, w) in itertools.product([True, False], [False, True], [False, True], [False, True]):
+            if not (s or cl or w or not c):
+                continue  # nothing to undo
+            if tier == "quick" and model in ("HilbertEOF+exp", "EOF") and not (s and (cl or w)):
+                continue
+            out.append(dict(sweep="pre", model=model, shape=[12, 6], spec="geometric", center=c, standardize=s, container="DA", latname="lat", lats=["L3"],
+                            n_modes=3, start=dict(w=[w], cos=[cl]), path=[dict(kind="pre", f=0)], depth=1, kind="pre", entry="fit"))
+    return out
+
+
+def _pre_model(model, **kw):
+    import xeofs as xe
+
+    k = dict(n_modes=3, random_state=5, solver="full", **kw)
+    rot = None
+    if model == "ExtendedEOF":
+        m = xe.single.ExtendedEOF(tau=1, embedding=2, **k)
+    elif model == "ExtendedEOF+pca":
+        m = xe.single.ExtendedEOF(tau=1, embedding=2, n_pca_modes=4, **k)
+    elif model.startswith("HilbertEOF"):
+        m = xe.single.HilbertEOF(padding="exp" if model.endswith("exp") else None, **k)
+    elif model == "OPA":
+        k["n_modes"] = 2
+        m = xe.single.OPA(tau_max=2, n_pca_modes=3, **k)
+    elif model == "POP":
+        k.pop("solver")
+        m = xe.single.POP(n_pca_modes=3, **k)
+    elif model == "SparsePCA+pen":
+        m = xe.single.SparsePCA(alpha=1e-2, beta=1e-3, **k)
+    else:
+        m = xe.single.EOF(**k)
+        if model == "EOFRotator":
+            rot = xe.single.EOFRotator(n_modes=3, power=1)
+    return m, rot
+
+
+def _run_pre(case, seed):
+    import xarray as xr
+
+    model = case["model"]
+    n, p = case["shape"]
+    lats = LATSETS["L3"]
+    X = D.make_matrix(n, p, case["spec"], 1.0, False, seed, salt=81) + np.random.default_rng([int(seed), 818]).normal(size=p) * 3.0
+    da = D.da_grid(X, 3, 2, lats=lats)
+    rng = np.random.default_rng([int(seed), 808, p])
+    wvec = 0.5 + 2.0 * rng.random(p) if case["start"]["w"][0] else None
+    cl = np.repeat(R.sqrt_coslat(lats), 2) if case["start"]["cos"][0] else None
+    wda = None if wvec is None else xr.DataArray(wvec.reshape(3, 2), dims=("lat", "lon"), coords={"lat": da.lat, "lon": da.lon})
+    P = R.preprocess(X, case["center"], case["standardize"], cl, wvec)
+    dp = D.da_grid(P, 3, 2, lats=lats)
+    V = []
+    with warnings.catch_warnings():
+        warnings.simplefilter("ignore")
+        ma, ra = _pre_model(model, center=case["center"], standardize=case["standardize"], use_coslat=bool(case["start"]["cos"][0]))
+        mb, rb = _pre_model(model, center=False, standardize=False, use_coslat=False)
+        ma.fit(da, dim="time", weights=wda)
+        mb.fit(dp, dim="time")
+        a, b = ma, mb
+        if ra is not None:
+            a, b = ra.fit(ma), rb.fit(mb)
+        obs = {}
+        for nm in ("components", "scores", "explained_variance", "explained_variance_ratio", "singular_values", "eigenvalues", "decorrelation_time", "filter_patterns"):
+            if hasattr(a, nm):
+                obs[nm] = (getattr(a, nm)(), getattr(b, nm)())
+    compared = 0
+    for nm, (qa, qb) in obs.items():
+        try:
+            qa2, qb2 = xr.align(qa, qb, join="exact")
+            qb2 = qb2.transpose(*qa2.dims)
+        except Exception as e:  # noqa: BLE001
+            V.append(viol("options_vs_preprocessed", model, "%s: label sets differ between the two fits (%s)" % (nm, type(e).__name__), quantity=nm))
+            continue
+        va, vb = np.asarray(qa2.values), np.asarray(qb2.values)
+        if model == "POP" or model.startswith("HilbertEOF"):
+            # complex modes are defined up to a unit factor (DESIGN 11.1): compare magnitudes, and the spectrum itself
+            if nm in ("components", "scores"):
+                va, vb = np.abs(va), np.abs(vb)
+        fin = np.isfinite(va) & np.isfinite(vb)
+        if not np.array_equal(np.isfinite(va), np.isfinite(vb)) or not fin.any():
+            V.append(viol("options_vs_preprocessed", model, "%s: missing values differ between the two fits" % nm, quantity=nm))
+            continue
+        e = float(np.max(np.abs(va[fin] - vb[fin]))) / max(float(np.max(np.abs(vb[fin]))), 1e-300)
+        compared += 1
+        if not e <= 1e-7:
+            V.append(viol("options_vs_preprocessed", model, "%s of the fit with options (center=%s, standardize=%s, use_coslat=%s, weights=%s) differs from the fit with all options "
+                          "off on the preprocessed matrix by %.3e (relative)" % (nm, case["center"], case["standardize"], bool(case["start"]["cos"][0]), bool(case["start"]["w"][0]), e),
+                          quantity=nm, standardize=bool(case["standardize"])))
+    return dict(violations=V, outcome="violation" if V else "ok", nontrivial=not V and compared >= 2, states=2, transitions=1, traces=1,
+                info=dict(nodes=[json.dumps(["pre", case["model"], case["center"], case["standardize"], case["start"], i]) for i in (0, 1)], kind="pre", latname="lat", wpres="same", entry="fit",
+                          values=compared, vectors=1, clusters=0, skipped_loose=0, skipped_cut=0, skipped_null=0, delta=0.0, margin=0.0))
 
 
 # ----------------------------------------------------------------------------- presentations (numpy -> xarray -> numpy)
@@ -492,6 +613,8 @@ class Ctx:
         for i, p in enumerate(sh[1:]):
             rng = np.random.default_rng([int(seed), 808, p, i])
             W = 0.5 + 2.0 * rng.random(p)
+            if case.get("wstore"):
+                W = rng.integers(1, 4, size=p).astype(float)
             if str(case.get("wpres", "same")).startswith("lat"):  # weights given on a subset of the feature dims (latitude only)
                 nlat, nlon = GRID[p]
                 W = np.repeat(W[:nlat], nlon)
@@ -583,6 +706,9 @@ class Ctx:
             obj = xr.DataArray(col[:, 0].copy(), dims=(fld.latname,), coords={fld.latname: fld.lats}, name=fld.tag + "_w")
         else:
             obj = fld.build(wvec[None, :], with_time=False)
+        ws = self.case.get("wstore")
+        if ws:
+            obj = [o.astype(ws) for o in obj] if isinstance(obj, list) else obj.astype(ws)
         order = pres.split("_")[-1]
         if order not in ("rev", "perm"):
             return obj
@@ -920,12 +1046,15 @@ def node_keys(case):
     base["wpres"] = case.get("wpres", "same")
     base["entry"] = case.get("entry", "fit")
     base["store"] = case.get("store")
+    base["wstore"] = case.get("wstore")
     base["alpha"] = case.get("alpha")
     base["pca"] = case.get("pca")
     return [json.dumps([base, case["path"][:i]], sort_keys=True) for i in range(len(case["path"]) + 1)]
 
 
 def run_case(case, seed):
+    if case.get("sweep") == "pre":
+        return _run_pre(case, seed)
     ctx = Ctx(case, seed)
     nodes = [ctx.start()]
     facs = []
